@@ -91,6 +91,8 @@ type rig struct {
 	logins chan common.RemoteUserLogin
 	proc   sshd.SshdProcessor
 	ing    *syslog.SyslogIngester
+
+	noMetrics bool // skip the registry Gather() before/after each line
 }
 
 func newRig(loginBuf int) *rig {
@@ -161,7 +163,10 @@ type obs struct {
 // run processes one entry, either directly (ProcessSshdLogEntry) or framed
 // through the syslog ingester's callback.
 func (r *rig) run(direct bool, pid, msg, framed string) (o obs) {
-	before := r.counters()
+	var before map[string]float64
+	if !r.noMetrics {
+		before = r.counters()
+	}
 	r.rec.ptrs, r.rec.copies, r.rec.other = nil, nil, nil
 	n0 := 0
 	o.T0 = time.Now()
@@ -196,7 +201,9 @@ func (r *rig) run(direct bool, pid, msg, framed string) (o obs) {
 	for _, x := range r.rec.other {
 		o.Raw = append(o.Raw, "NOT-AN-EVENT:"+x)
 	}
-	o.Metrics = delta(before, r.counters())
+	if !r.noMetrics {
+		o.Metrics = delta(before, r.counters())
+	}
 	return o
 }
 
